@@ -104,7 +104,7 @@ def events(tr):
 class C11(Prop):
     id = 'C11'
     num = 11
-    regions = {'quick': [('preempt', 240), ('preempt_deep', 120), ('renege_preempt', 80), ('prio_reroute', 60), ('jsq_preempt', 40), ('schedpre', 100), ('slotted', 40),
+    regions = {'quick': [('preempt', 240), ('preempt_deep', 120), ('renege_preempt', 80), ('prio_reroute', 60), ('jsq_preempt', 40), ('schedpre', 100), ('slotted', 30), ('slotted_pre', 40),
                          ('dyn', 40), ('all', 60)]}
     rule = ('one case = one observed run of a network with pre-emptive priorities and/or pre-emptive schedules (customers of those nodes never '
             'blocked: a run is cut at the first interruption of a blocked customer, outside the property scope); non-trivial = some customer was '
